@@ -95,12 +95,21 @@ pub struct Case {
     pub ops: Vec<COp>,
 }
 
+/// 0 = assembly build, 1 = C intrinsics build, 2.. = NDEBUG and BLAKE3_NO_* builds (see cshim::all_apis)
 pub fn api_of(variant: u8) -> CApi {
-    if variant % 2 == 0 {
-        cshim::api_asm()
-    } else {
-        cshim::api_intr()
-    }
+    let all = cshim::all_apis();
+    all[variant as usize % all.len()]
+}
+
+fn lib_tag(variant: u8) -> &'static str {
+    const T: [&str; 9] = ["lib=assembly", "lib=c-intrinsics", "lib=assembly-NDEBUG", "lib=c-intrinsics-NDEBUG", "lib=NO_SSE41", "lib=NO_AVX512", "lib=NO_AVX512+NO_AVX2", "lib=portable-only", "lib=NO_SSE2"];
+    T[variant as usize % cshim::all_apis().len() % 9]
+}
+
+/// Library build selector: the two main builds most of the time, the others now and then.
+pub fn variant_strategy() -> BoxedStrategy<u8> {
+    let n = cshim::all_apis().len() as u8;
+    prop_oneof![3 => 0u8..2, 2 => 2u8..n].boxed()
 }
 
 pub struct Slot {
@@ -237,7 +246,7 @@ pub fn check(c: &Case) -> Result<(), String> {
         return Ok(());
     }
     unsafe { *api.features = cshim::mask_for(c.mask) };
-    let expect_degree = c.mask.degree();
+    let expect_degree = api.expected_degree(c.mask);
     let got_degree = unsafe { (api.degree)() };
     ensure!(got_degree == expect_degree, "{}: blake3_simd_degree() = {} under feature mask for {:?} (expected {})", api.name, got_degree, c.mask, expect_degree);
     let r = run_history(&api, c).map_err(|e| format!("[mask {:?}] {}", c.mask, e));
@@ -299,8 +308,7 @@ pub fn classify(c: &Case) -> Classes {
     Classes::new((updates >= 2 && max_total > 1024) || unaligned_seek || reset)
         .tag(true, c.init.tag())
         .tag(true, mask_tag)
-        .tag(c.variant % 2 == 0, "lib=assembly")
-        .tag(c.variant % 2 == 1, "lib=c-intrinsics")
+        .tag(true, lib_tag(c.variant))
         .tag(unaligned_seek, "seek%64!=0")
         .tag(big_seek, "seek>=2^38(block counter>=2^32)")
         .tag(reset, "reset")
@@ -342,7 +350,7 @@ pub fn strategy(tier: Tier) -> BoxedStrategy<Case> {
     let budget: u32 = tier.pick(256 * 1024, 4 * 1024 * 1024);
     let max_ops = tier.pick(30usize, 100usize);
     let max_abs = tier.pick(70_000u32, 800_000u32);
-    (0u8..2, mask_strategy(), init_strategy(), gen::content(), prop::collection::vec(op_strategy(max_abs), 0..=max_ops))
+    (variant_strategy(), mask_strategy(), init_strategy(), gen::content(), prop::collection::vec(op_strategy(max_abs), 0..=max_ops))
         .prop_map(move |(variant, mask, init, content, ops)| Case { variant, mask, init, content, budget, ops })
         .boxed()
 }
@@ -371,7 +379,7 @@ fn large_strategy(tier: Tier) -> BoxedStrategy<Case> {
         }
         v
     });
-    (0u8..2, mask_strategy(), init_strategy(), gen::content(), prop::collection::vec(step, 1..=3))
+    (variant_strategy(), mask_strategy(), init_strategy(), gen::content(), prop::collection::vec(step, 1..=3))
         .prop_map(|(variant, mask, init, content, steps)| {
             let mut ops: Vec<COp> = steps.into_iter().flatten().collect();
             ops.push(COp::Finalize(64));
@@ -447,7 +455,7 @@ pub fn subs() -> Vec<Box<dyn DynSub>> {
         }),
         Box::new(PropSub::<Case> {
         name: "c-api-histories",
-        rule: "proptest: (library build: assembly | C intrinsics) x (g_cpu_features mask: portable/SSE2/SSE4.1/AVX2/AVX-512) x (init | init_keyed | init_derive_key | init_derive_key_raw with NUL/invalid UTF-8) x 0-30 ops of update (sizes resolved against the running total) / update(NULL,0) / finalize(k) / finalize_seek(seek from the 64*K lattice, k<=65535) / finalize_seek(NULL,0) / reset / struct copy / swap; every output vs spec S[seek..seek+k] and vs the Rust crate, hasher bytes compared across finalize, reset hasher in lockstep with a fresh twin; non-trivial = >=2 updates with >1 chunk, or seek%64!=0, or a reset",
+        rule: "proptest: (library build: assembly | C intrinsics | the same two with -DNDEBUG | C intrinsics with BLAKE3_NO_SSE41 / NO_AVX512 / NO_AVX512+NO_AVX2 / all NO_* / NO_SSE2) x (g_cpu_features mask: portable/SSE2/SSE4.1/AVX2/AVX-512) x (init | init_keyed | init_derive_key | init_derive_key_raw with NUL/invalid UTF-8) x 0-30 ops of update (sizes resolved against the running total) / update(NULL,0) / finalize(k) / finalize_seek(seek from the 64*K lattice, k<=65535) / finalize_seek(NULL,0) / reset / struct copy / swap; every output vs spec S[seek..seek+k] and vs the Rust crate, hasher bytes compared across finalize, reset hasher in lockstep with a fresh twin; non-trivial = >=2 updates with >1 chunk, or seek%64!=0, or a reset",
         cases: (24_000, 200_000),
         strategy,
         classify,
